@@ -1049,6 +1049,8 @@ mod store {
                 "all" => { c.merge_threshold_small_file(u64::MAX).merge_threshold_dead_bytes(0).merge_threshold_fragmentation(0.0); }
                 "frag50" => { c.merge_threshold_small_file(0).merge_threshold_dead_bytes(u64::MAX).merge_threshold_fragmentation(0.5); }
                 "none" => { c.merge_threshold_small_file(0).merge_threshold_dead_bytes(u64::MAX).merge_threshold_fragmentation(1.0); }
+                // every file is eligible, but ONLY because it is smaller than small_file (the other two thresholds can never be exceeded)
+                "allsmall" => { c.merge_threshold_small_file(u64::MAX).merge_threshold_dead_bytes(u64::MAX).merge_threshold_fragmentation(1.0); }
                 // fragmented files and files smaller than the maximum (in practice: the active file) -- a selection with gaps
                 "gap" => { c.merge_threshold_small_file(max).merge_threshold_dead_bytes(u64::MAX).merge_threshold_fragmentation(0.4); }
                 _ => { c.merge_threshold_small_file(0).merge_threshold_dead_bytes(u64::MAX).merge_threshold_fragmentation(0.0); }
@@ -1123,7 +1125,7 @@ mod store {
                             // C13: a merge pass never grows the store; with every file eligible it leaves exactly the live pairs
                             let after = data_size(dir.path());
                             if crate::want("C13") && after > before { report(label, "C13", &hist, format!("op {} merge: data files grew from {} to {} bytes; files {:?}", i, before, after, files(dir.path())), "not larger than before"); }
-                            if crate::want("C13") && mode == "all" && alt.is_empty() && !had_fault {
+                            if crate::want("C13") && (mode == "all" || mode == "allsmall") && alt.is_empty() && !had_fault {
                                 let fresh = fresh_size(&model);
                                 if after != fresh { report(label, "C13", &hist, format!("op {} merge (every file eligible): data files hold {} bytes; files {:?}", i, after, files(dir.path())), &format!("{} bytes: the size of a fresh store holding only the {} live pairs", fresh, model.len())); }
                             }
@@ -1193,6 +1195,7 @@ mod store {
             (30, "dead", "set a 1; set b 2; set a 3; merge; checkall; reopen; checkall; checkstats"),
             // a selection with a gap: file 0 (fragmented) and the small active file are selected, the full file between them is not
             (100, "gap", "set a 1; set b 1; set c 1; set d 1; set e 1; set f 1; set g 1; set h 1; set a 2; set b 2; set c 2; merge; checkall; get e; reopen; checkall; merge; checkall; checkhints; checkall"),
+            (64, "allsmall", "set a 1; set b 2; set c 3; set a 4; set b 5; set d 6; set a 7; merge; checkall; merge; checkall; reopen; checkall"),
             (40, "all-cache0", "set k v; get k; set k w; get k; set j 1; get j; get k; merge; get k; get j; reopen; get k; checkall"),
             (0, "all", "precreate-data 1; set a 1; set b 2; get a; get b; reopen; get a; get b"),
             // a rollover that fails (the next file already exists), the obstacle is removed, the operation is retried (C20)
@@ -1276,7 +1279,7 @@ mod store {
             let v: Vec<&str> = ops.iter().map(|s| s.as_str()).collect();
             run_history(max, mode, &v, "history");
         }
-        println!("{{\"found\": false, \"searched\": \"22 curated (three with a failing rollover, two with a data file removed under the store, two with 420 operations in files larger than the read buffer, one merge whose selection has a gap, one with a reader cache of capacity 0, two with values of 1 B / 3 KB / 70 KB alternating), 40 pseudo-random histories with full merges and 24 with partial merges (no deletes), (set/del/get/merge/reopen over 3 keys, max_file_size in 0,40,100,1M) against the map model incl. per-file live-key and dead-byte accounting\"}}");
+        println!("{{\"found\": false, \"searched\": \"23 curated (three with a failing rollover, one where files are eligible only by being small, two with a data file removed under the store, two with 420 operations in files larger than the read buffer, one merge whose selection has a gap, one with a reader cache of capacity 0, two with values of 1 B / 3 KB / 70 KB alternating), 40 pseudo-random histories with full merges and 24 with partial merges (no deletes), (set/del/get/merge/reopen over 3 keys, max_file_size in 0,40,100,1M) against the map model incl. per-file live-key and dead-byte accounting\"}}");
     }
 
     /// C18 (bounded, real time): the background tasks of the real store with a 25 ms check interval.
